@@ -275,7 +275,7 @@ class Discharger:
                     lo, hi = _bounds_from_facts(facts, a)
                     if lo is not None and lo >= cb:
                         return ("CMP-DOM", "%s >= %d from dominating comparison" % (a, lo))
-                return self._interval(fn, t, "sub")
+                return self._interval(fn, t, "sub") or self._affine(fn, S, facts, mops, "sub")
             if msg == "Overflow:Mul":
                 return self._interval(fn, t, "mul")
             if msg == "Overflow:Add":
@@ -292,7 +292,7 @@ class Discharger:
                             if sb and ((sb[0] == a and sb[1] == "Lt" and truth) or (sb[0] == a and sb[1] == "Ge" and not truth)
                                        or (sb[2] == a and sb[1] == "Gt" and truth) or (sb[2] == a and sb[1] == "Le" and not truth)):
                                 return ("CMP-DOM", "%s is strictly below another %s value (bb%d), so +1 cannot overflow" % (a, ty, g))
-                return self._interval(fn, t, "add")
+                return self._interval(fn, t, "add") or self._affine(fn, S, facts, mops, "add")
             if msg == "BoundsCheck":
                 ln, ix = S.val(mops[0]), S.val(mops[1])
                 cl, ci = _const(ln), _const(ix)
@@ -355,6 +355,31 @@ class Discharger:
             if m and re.fullmatch(r"[0-9A-Fa-f]{8}-[0-9A-Fa-f]{4}-[0-9A-Fa-f]{4}-[0-9A-Fa-f]{4}-[0-9A-Fa-f]{12}", m.group(1)):
                 return ("CONST-UUID", "argument is the well-formed UUID literal %s" % m.group(1))
             return None
+        return None
+
+    def _affine(self, fn, S, facts, mops, what):
+        """both operands affine in one variable whose interval the dominating facts give (comparisons with constants, range patterns,
+        char-class predicates): the result stays inside the operand type"""
+        from ..lib import affine, interval_of
+        ty = _op_ty(fn, mops[0], mops[1] if len(mops) > 1 else None)
+        if ty not in BITS:
+            return None
+        a, b = S.val(mops[0]), S.val(mops[1])
+        for var in sorted(set(re.findall(r"\bp\d+\b|\b_\d+\b", a + " " + b))):
+            x, y = affine(a, var), affine(b, var)
+            if x is None or y is None:
+                continue
+            lo, hi, ex = interval_of(facts, var)
+            if lo is None or hi is None:
+                continue
+            k = (x[0] + y[0], x[1] + y[1]) if what == "add" else (x[0] - y[0], x[1] - y[1])
+            vals = [k[0] * lo + k[1], k[0] * hi + k[1]]
+            # the operands themselves must fit as well
+            for (c0, c1) in (x, y):
+                vals += [c0 * lo + c1, c0 * hi + c1]
+            tlo, thi = (0, UNSIGNED_MAX[ty]) if ty in UNSIGNED_MAX else SIGNED_RANGE[ty]
+            if tlo <= min(vals) and max(vals) <= thi:
+                return ("AFFINE-INTERVAL", "%s in [%d,%d] by the dominating tests; %s %s %s stays in [%d,%d] within %s" % (var, lo, hi, a, what, b, min(vals), max(vals), ty))
         return None
 
     def _interval(self, fn, t, what):
